@@ -46,6 +46,8 @@ def parseOp (s : String) : Option Op :=
   | ["drop"] => some .dropHandles
   | "s" :: rest => (apiCtls rest).map (fun (p, cs) => .send p cs true)
   | "n" :: rest => (apiCtls rest).map (fun (p, cs) => .send p cs false)
+  | "m" :: rest => (apiCtls rest).map (fun (p, cs) => .inject p cs false)
+  | "M" :: rest => (apiCtls rest).map (fun (p, cs) => .inject p cs true)
   | _ => none
 
 def cfgOf (s : String) : Fixes := if s == "all" then Fixes.all else Fixes.none
@@ -59,6 +61,8 @@ def handleLine (cfg : Fixes) (line : String) : String :=
     if os.any Option.isNone then id ++ " bad-op" else
     let os := os.filterMap (·)
     let init : Sim := { st := { cfg := cfg, behs := bs, hookSet := true, parked := true } }
+    -- an injected send is followed by the rest of that settle
+    let os := os.flatMap (fun o => match o with | .inject .. => [o, .settle] | _ => [o])
     let finals := runOps init (os ++ [.settle])
     let traces := (finals.map traceStr).eraseDups
     id ++ " " ++ String.intercalate " ## " traces
